@@ -150,6 +150,50 @@ def run(ctx):
         impl.append(r)
     compare(ctx, 'easter_monday', ops, impl, drivers_ok, spec_ok, len(ops), exhaustive=True)
 
+    # ---------------------------------------------------------------- order independence
+    # is_holiday keeps per-call scratch (day_in_year, weekday) on the Calendar object: asking in a random
+    # order, on the same objects, must give the answers of the ordered sweep above
+    nb_set = {c.value: set(v) for c, v in ((c, nonbus.get(c.value, [])) for c in cals)}
+    nq = 30000 if ctx.quick() else 400000
+    bad = 0
+    for _ in range(nq):
+        c = rng.choice(cals)
+        t = rng.choice(nonbus[c.value]) if (rng.random() < 0.5 and nonbus.get(c.value)) else rng.choice(all_dmy)
+        try:
+            b = calobj[c].is_business_day(date_of(t))
+        except Exception as e:  # noqa: BLE001
+            b = err_kind(e)
+        if b != (t not in nb_set[c.value]):
+            bad += 1
+            if bad <= 3:
+                ctx.violation('is_business_day depends on the order of calls (random order differs from the ordered sweep)',
+                              {'cal': c.name, 'date': t, 'random_order': b, 'sweep': t not in nb_set[c.value]},
+                              clause='order-independence')
+    ctx.count('is_business_day (random order)', nq, nq)
+
+    # ---------------------------------------------------------------- get_holiday_list(y)
+    # = the non-weekend non-business days of the year, in order, as strings — derived here from the
+    # is_business_day answers that the exhaustive comparison above has just tied to the spec
+    import datetime as _dt
+    nyears = 8 if ctx.quick() else 60
+    cnt = 0
+    for c in cals:
+        by_year = {}
+        for t in nonbus.get(c.value, []):
+            if _dt.date(t[2], t[1], t[0]).weekday() < 5:
+                by_year.setdefault(t[2], []).append(t)
+        for y in sorted(set([1901, 2199, 2000] + [rng.randrange(1901, 2200) for _ in range(nyears)])):
+            want = [str(date_of(t)) for t in sorted(by_year.get(y, []), key=lambda t: (t[1], t[0]))]
+            try:
+                got = calobj[c].get_holiday_list(y)
+            except Exception as e:  # noqa: BLE001
+                got = err_kind(e)
+            cnt += 1
+            if got != want:
+                ctx.violation('get_holiday_list(year) is not the list of non-weekend holidays of that year',
+                              {'cal': c.name, 'year': y, 'got': got, 'want': want}, clause='get_holiday_list')
+    ctx.count('get_holiday_list', cnt, cnt)
+
     ctx.assumptions += [
         'rule lists in FinVerif/Spec/Calendar.lean are a reading of the named rules in calendar.py; agreement with real-world public holidays is not claimed',
         'termination of the adjust walk (fuel 40) is validated by the exhaustive correspondence, not proved',
